@@ -76,6 +76,7 @@ class MidiFile(object):
             print("Don't know how to parse this yet")
             return c
         ticks_per_beat = header[2]["ticks_per_beat"]
+        bpm = self.bpm  # until a tempo event says otherwise
         for track in track_data:
             t = Track()
             b = Bar()
